@@ -666,6 +666,6 @@ int main(int argc, char** argv) {
             vh::clearCurrent();
         }
     });
-    vh::runProp("pgn", trees, 6.0, [&](Choices& c) { runPgn("pgn", c, st); });
+    vh::runProp("pgn", trees, 14.0, [&](Choices& c) { runPgn("pgn", c, st); });
     return vh::finish();
 }
